@@ -330,6 +330,7 @@ def run(chk):
     from . import rules_C12, rules_C13, report
 
     report.include_rules(chk, r5, rules_C12, ("C12.R1", "C12.R2"), "the routed client is the hasher's answer for this call and the key passed on is this call's own key")
+    rules_C12.duplicate_key_rows(prog, r5)
     from . import rules_C11
 
     report.include_rules(chk, r5, rules_C11, ("C11.R2", "C11.R3"), "the router accepts every key Client accepts and answers from the key alone (it hashes '<node>-<key>' as given, str or bytes, and takes the argmax): it cannot fail or misroute for keys a plain Client serves")
